@@ -61,4 +61,27 @@ def build(key, variant, i):
         kp = NS(KID=NS(raw=b(i, 'k')), KEY=NS(raw=b(i, 'y')))
         env.update(self=None, keypair=kp)
         return {'env': env, 'call': lambda: PlayReady().generate_checksum(kp)}
+    if qual == 'PlayReady.generate_wrmheader':
+        import re as _re
+        import dashlive.drm.playready as prmod
+        m = _re.match(r'(\d)keys-default(\d)-v([\d.]+)', variant)
+        nkeys, default, version = int(m.group(1)), int(m.group(2)), float(m.group(3))
+        keys = {f'kid{k}': NS(KID=NS(raw=b(i, f'k{k}_'), hex=b(i, f'k{k}_').hex()), KEY=NS(raw=b(i, f'y{k}_')), ALG='AESCTR',
+                              computed=(k % 2 == 0)) for k in range(nkeys)}
+        captured = {}
+
+        def fake_render(template, **context):
+            captured.update(template=template, context=context)
+            return '<WRMHEADER></WRMHEADER>'
+        env['__keys__'] = keys
+
+        def call():
+            saved = prmod.render_template
+            prmod.render_template = fake_render
+            try:
+                PlayReady(header_version=version).generate_wrmheader(None, f'KID{default}', keys, None)
+            finally:
+                prmod.render_template = saved
+            return NS(template=captured.get('template'), context=captured.get('context'))
+        return {'env': env, 'old_env': dict(env), 'call': call}
     raise KeyError(qual)
